@@ -70,7 +70,8 @@ fn gen_field(d: &mut D, name: String, id: usize, j: usize, structs: &[usize], en
         });
     }
     f.multiple = d.ratio(1, 6);
-    f.skip = !f.multiple && d.ratio(1, 7);
+    // (`skip` and `multiple` on one field is accepted: the field is simply not read and holds its fallback)
+    f.skip = d.ratio(1, 7);
     if taggable(&f.ty) {
         f.with = *d.pick(&[Call::None, Call::None, Call::None, Call::Path, Call::Closure]);
         f.transform = *d.pick(&[Tr::None, Tr::None, Tr::None, Tr::Map, Tr::AndThen]);
@@ -79,12 +80,12 @@ fn gen_field(d: &mut D, name: String, id: usize, j: usize, structs: &[usize], en
     if f.default == Dflt::Trait && !has_std_default(&f.ty) {
         f.default = Dflt::Fn;
     }
-    if f.skip && f.default == Dflt::None && !has_std_default(&f.ty) {
+    if f.skip && !f.multiple && f.default == Dflt::None && !has_std_default(&f.ty) {
         f.default = Dflt::Fn;
     }
     if in_variant {
         // struct variants: no inherited defaults exist, keep the rest
-        if f.skip && f.default == Dflt::None && !has_std_default(&f.ty) {
+        if f.skip && !f.multiple && f.default == Dflt::None && !has_std_default(&f.ty) {
             f.skip = false;
         }
     }
@@ -183,6 +184,11 @@ pub fn gen_struct(d: &mut D, id: usize, tr: Trait, structs: &[usize], enums: &[u
         if d.ratio(1, 8) {
             c.attributes[0] = "ns::at".to_string();
         }
+        // (an attribute may be called by a raw identifier)
+        if d.ratio(1, 8) {
+            let k = c.attributes.len() - 1;
+            c.attributes[k] = "r#type".to_string();
+        }
         // (undocumented option; for FromField it needs From<Option<Ident>>, FromAttributes has no ident)
         c.from_ident = c.default == Dflt::None && d.ratio(1, 6) && matches!(tr, Trait::FromDeriveInput | Trait::FromVariant | Trait::FromTypeParam);
     }
@@ -274,6 +280,16 @@ pub fn gen_enum(d: &mut D, id: usize, structs: &[usize], enums: &[usize]) -> Spe
     }
     if !have_word {
         c.from_word = *d.pick(&[Call::None, Call::None, Call::None, Call::Path, Call::Closure]);
+    }
+    // a skipped variant may carry the very name of a later live one (it reserves nothing: the live one is selected)
+    if d.ratio(1, 5) {
+        let sk: Vec<usize> = (0..vs.len()).filter(|i| vs[*i].skip).collect();
+        if let Some(&i) = sk.first() {
+            if let Some(j) = ((i + 1)..vs.len()).find(|j| !vs[*j].skip) {
+                let name = effective_name(&vs[j].rust_name, &vs[j].rename, &c.rename_all, true);
+                vs[i].rename = Some(name);
+            }
+        }
     }
     // the first (unit, never skipped) variant must be nameable, otherwise the enum has no good value
     if !expressible(&effective_name(&vs[0].rust_name, &vs[0].rename, &c.rename_all, true)) {
